@@ -60,7 +60,7 @@ LifeInit ==
 
 Alive(S, i)   == S.kind[i] # "free"
 OwnedBy(S, o) == {a \in S.heap : a[1] = o}
-Has(S, o, w)  == <<o, w>> \in S.heap
+Owns(S, o, w) == <<o, w>> \in S.heap
 Holders(S, m) == {h \in Img : Alive(S, h) /\ S.amap[h] = m}
 
 Ev(k, a, b, c) == [k |-> k, a |-> a, b |-> b, c |-> c]
@@ -70,14 +70,14 @@ Begin(S)     == [S EXCEPT !.ev = <<>>, !.ret = FALSE, !.died = <<>>, !.dev = ""]
 
 Alloc(S, o, w) ==
     IF S.err # "" THEN S
-    ELSE IF Has(S, o, w) THEN Fail(S, "leak: owning pointer overwritten without free")
+    ELSE IF Owns(S, o, w) THEN Fail(S, "leak: owning pointer overwritten without free")
     ELSE Emit([S EXCEPT !.heap = @ \cup {<<o, w>>}], Ev("M", o, w, 0))
 Free(S, o, w) ==
     IF S.err # "" THEN S
-    ELSE IF ~Has(S, o, w) THEN Fail(S, "double free")
+    ELSE IF ~Owns(S, o, w) THEN Fail(S, "double free")
     ELSE Emit([S EXCEPT !.heap = @ \ {<<o, w>>}], Ev("F", o, w, 0))
-FreeIf(S, o, w) == IF Has(S, o, w) THEN Free(S, o, w) ELSE S        \* free (NULL) does nothing
-Touch(S, i) == IF Has(S, i, "struct") THEN S ELSE Fail(S, "use after free")
+FreeIf(S, o, w) == IF Owns(S, o, w) THEN Free(S, o, w) ELSE S        \* free (NULL) does nothing
+Touch(S, i) == IF Owns(S, i, "struct") THEN S ELSE Fail(S, "use after free")
 
 RefS(S0, i) ==
     LET S == Touch(S0, i) IN
@@ -144,8 +144,9 @@ CreateS(S, i, k) ==
 (* setters that replace buffers the image owns *)
 SetTransformS(S0, i, on) ==       \* on: a matrix other than the identity; off: NULL or the identity
     LET S == Touch(S0, i) IN
-    IF on THEN (IF Has(S, i, "transform") THEN S ELSE Alloc(S, i, "transform"))
-    ELSE IF "transform_leak" \in Bugs THEN [S EXCEPT !.heap = @ \ {<<i, "transform">>}]   \* pointer dropped, not freed
+    IF on THEN (IF Owns(S, i, "transform") THEN S ELSE Alloc(S, i, "transform"))
+    ELSE IF "transform_leak" \in Bugs /\ Owns(S, i, "transform")              \* pointer dropped, buffer not freed
+         THEN [S EXCEPT !.heap = (@ \ {<<i, "transform">>}) \cup {<<i, "lost">>}]
     ELSE FreeIf(S, i, "transform")
 SetFilterS(S0, i, p) ==           \* p: parameters given (copied); otherwise NULL
     LET S  == Touch(S0, i)
@@ -155,7 +156,7 @@ SetClipS(S0, i, c) ==             \* 0: NULL (the copy is kept), 1: a region wit
     LET S == Touch(S0, i) IN
     IF c = 0 THEN S
     ELSE IF c = 1 THEN FreeIf(S, i, "clip")
-    ELSE IF Has(S, i, "clip") THEN S ELSE Alloc(S, i, "clip")
+    ELSE IF Owns(S, i, "clip") THEN S ELSE Alloc(S, i, "clip")
 
 GInsertS(S0, k, i) ==             \* the cache stores a copy; the argument image is only read
     LET S  == IF S0.amap[i] # None THEN Touch(Touch(S0, i), S0.amap[i]) ELSE Touch(S0, i)
@@ -210,15 +211,15 @@ Quiescent(S) == (\A i \in Img : S.held[i] = 0) /\ S.glyphs = {}
 RefsAccounted(S) ==     \* every reference has an owner: the client or an image the map is attached to
     \A i \in Img : S.refs[i] = S.held[i] + Cardinality(Holders(S, i))
 AliveIffRefs(S)   == \A i \in Img : Alive(S, i) <=> S.refs[i] > 0
-AliveIffStruct(S) == \A i \in Img : /\ Alive(S, i) <=> Has(S, i, "struct")
+AliveIffStruct(S) == \A i \in Img : /\ Alive(S, i) <=> Owns(S, i, "struct")
                                     /\ ~Alive(S, i) => OwnedBy(S, i) = {}
 AttachedAlive(S)  == \A h \in Img : Alive(S, h) /\ S.amap[h] # None =>
                                        Alive(S, S.amap[h]) /\ IsBits(S.kind[S.amap[h]])
 NoChains(S)       == \A h \in Img : Alive(S, h) /\ S.amap[h] # None => S.amap[S.amap[h]] = None
 NoMemoryError(S)  == S.err = ""
 OwnedShape(S)     == /\ \A i \in Img : Alive(S, i) =>
-                           /\ Has(S, i, "bits") <=> S.kind[i] = "bits"
-                           /\ Has(S, i, "stops") <=> IsGrad(S.kind[i])
+                           /\ Owns(S, i, "bits") <=> S.kind[i] = "bits"
+                           /\ Owns(S, i, "stops") <=> IsGrad(S.kind[i])
                      /\ \A k \in GKeys : (k \in S.glyphs) <=> OwnedBy(S, GOwner(k)) # {}
 NothingLeftBehind(S) == Quiescent(S) => S.heap = {} /\ \A i \in Img : ~Alive(S, i)
 
@@ -247,5 +248,119 @@ LifeStateOK(S) ==
 LifeOutputOK(S, c) ==
     /\ CallbackOnce(S) /\ CallbackBeforeFrees(S) /\ ReleasedCompletely(S)
     /\ UnrefReturn(S, c) /\ FreesOnlyOf(S, c)
+
+
+(* ====================================================================================== *)
+(* Part 2: properties, the dirty flag and derived state (C14)                             *)
+(* ====================================================================================== *)
+(* State record P of one long-lived image:                                                *)
+(*   type     "bits", "indexed" (a bits image with a palette format), "gradient", "solid" *)
+(*   want     what the client has asked for: the value last passed to every setter.  A    *)
+(*            freshly created image given want is the reference C14 compares with.        *)
+(*   stored   what the image holds (common.transform, common.filter, ... bits.dither)     *)
+(*   dirty    common.dirty                                                                *)
+(*   cached   what _pixman_image_validate derived from stored the last time it ran        *)
+(*   mdirty, mcached   the same two for alpha-map image A (only its accessors are varied)  *)
+(* Abstract values (the drivers map them to concrete arguments):                          *)
+(*   t   transform  0 NULL, 1 identity matrix passed by value, 2 translate, 3 scale, 4 projective *)
+(*   f   filter     0 nearest, 1 bilinear, 2 convolution A, 3 convolution A from another   *)
+(*                  buffer, 4 convolution B from the buffer of 2, 5 separable convolution  *)
+(*   r   repeat     0 none, 1 normal, 2 pad, 3 reflect                                     *)
+(*   c   clip       0 NULL, 1 one rectangle, 2 two rectangles                              *)
+(*   sc  source clipping, cc has_client_clip, ca component alpha, acc accessors: 0 / 1     *)
+(*   am  alpha map  0 none, 1 image A, 2 image B;  ao its origin 0 / 1                     *)
+(*   pal palette    0 none, 1, 2 (indexed formats)                                         *)
+(*   d   dither     0 none, 1, 2;  dof dither offset 0 / 1                                 *)
+(*   ma  accessors of alpha-map image A: 0 / 1 (a property of the attached image that      *)
+(*       the holder's validate must pick up)                                              *)
+PropNames == {"t", "f", "r", "c", "sc", "cc", "am", "ao", "ca", "acc", "pal", "d", "dof", "ma"}
+PropRange(n) ==
+    CASE n = "t" -> 0..4 [] n = "f" -> 0..5 [] n = "r" -> 0..3 [] n = "c" -> 0..2
+      [] n = "am" -> 0..2 [] n = "pal" -> 1..2 [] n = "d" -> 0..2
+      [] OTHER -> 0..1
+Defaults == [t |-> 0, f |-> 0, r |-> 0, c |-> 0, sc |-> 0, cc |-> 0, am |-> 0, ao |-> 0, ca |-> 0, acc |-> 0,
+             pal |-> 0, d |-> 0, dof |-> 0, ma |-> 0]
+
+(* the value a property has once v was set: an identity matrix is no transform; convolution A is *)
+(* convolution A whatever buffer it was passed in                                               *)
+Norm(n, v) == IF n = "t" /\ v = 1 THEN 0 ELSE IF n = "f" /\ v = 3 THEN 2 ELSE v
+NormAll(w) == [n \in DOMAIN w |-> Norm(n, w[n])]
+
+FilterKind(f) == IF f \in {2, 3, 4} THEN 2 ELSE f
+(* what validate computes: compute_image_info (flags, extended format code) depends on the      *)
+(* transform, the filter kind, repeat, component alpha, accessors, presence of an alpha map;    *)
+(* property_changed sets up the accessor functions (bits) or the sentinel stops (gradients,     *)
+(* from repeat); validate recurses into the alpha map.                                          *)
+Derive(type, st) ==
+    [t |-> st.t, fk |-> FilterKind(st.f), r |-> st.r, ca |-> st.ca,
+     acc |-> IF type \in {"bits", "indexed"} THEN st.acc ELSE 0,
+     am |-> IF st.am # 0 THEN 1 ELSE 0,
+     sentinel |-> IF type = "gradient" THEN st.r ELSE 0]
+
+PropInit(type) ==
+    LET w == IF type = "indexed" THEN [Defaults EXCEPT !.pal = 1] ELSE Defaults IN
+    [type |-> type, want |-> w, stored |-> w, dirty |-> TRUE, cached |-> Derive(type, Defaults),
+     mdirty |-> TRUE, mcached |-> 0]        \* image A's own dirty flag and accessor set-up
+
+(* the early-return guards of the setters, as in pixman-image.c *)
+EarlyReturn(P, n, v) ==
+    LET cur == P.stored[n] IN
+    CASE n = "t" ->   \* pointer equality (both NULL), or same matrix as the stored copy
+              \/ v = 0 /\ cur = 0
+              \/ Norm(n, v) # 0 /\ (IF "guard_transform_class" \in Bugs THEN cur # 0 ELSE cur = Norm(n, v))
+      [] n = "f" ->   \* params == common->filter_params && filter == common->filter: only NULL params can be equal
+              IF "guard_filter_kind" \in Bugs THEN FilterKind(v) = FilterKind(cur)
+              ELSE v \in {0, 1} /\ cur = v
+      [] n \in {"r", "sc", "ca", "pal", "d", "dof"} -> cur = v
+      [] n = "ma" -> FALSE
+      [] OTHER -> FALSE          \* clip, has_client_clip, alpha map, accessors: never return early
+
+MarksDirty(P, n) ==
+    /\ n # "cc"                          \* set_has_client_clip: nothing derived depends on it
+    /\ ("nodirty_" \o n) \notin Bugs
+
+Applicable(type, n) ==
+    CASE n \in {"acc", "d", "dof"} -> type \in {"bits", "indexed"}    \* no-ops on other types: not generated
+      [] n = "pal" -> type = "indexed"
+      [] OTHER -> TRUE
+
+(* a setter call: [op |-> "set", i |-> 0, j |-> name, v |-> value] (Call("set", 0, name, v)) *)
+SetProp(P, n, v) ==
+    LET w == [P.want EXCEPT ![n] = v] IN
+    IF EarlyReturn(P, n, v) THEN [P EXCEPT !.want = w]
+    ELSE IF n = "ma"                     \* pixman_image_set_accessors (A, ...): marks A dirty, not the holder
+    THEN [P EXCEPT !.want = w, !.stored[n] = v, !.mdirty = IF "nodirty_ma" \in Bugs THEN @ ELSE TRUE]
+    ELSE [P EXCEPT !.want = w,
+                   !.stored[n] = Norm(n, v),
+                   !.dirty = IF MarksDirty(P, n) THEN TRUE ELSE @]
+
+(* _pixman_image_validate: the image recomputes iff dirty; then the attached alpha map is validated *)
+(* in the same way, whether or not the holder was dirty                                            *)
+ValidateP(P) ==
+    LET D  == Derive(P.type, P.stored)
+        P1 == IF P.dirty
+              THEN [P EXCEPT !.dirty = FALSE,
+                             !.cached = IF "gradient_no_refresh" \in Bugs THEN [D EXCEPT !.sentinel = P.cached.sentinel] ELSE D]
+              ELSE P
+    IN IF P1.stored.am = 1 /\ P1.mdirty /\ "map_not_validated" \notin Bugs
+       THEN [P1 EXCEPT !.mdirty = FALSE, !.mcached = P1.stored.ma]
+       ELSE P1
+
+PropStep(P, c) ==
+    CASE c.op = "set" -> {SetProp(P, c.j, c.v)}
+      [] c.op = "render" -> {ValidateP(P)}
+
+SetCalls(type) ==
+    UNION {{Call("set", 0, n, v) : v \in PropRange(n)} : n \in {x \in PropNames : Applicable(type, x)}}
+PropCalls(P) == SetCalls(P.type) \cup {Call("render", 0, "", 0)}
+
+(* ---- what C14 states ---- *)
+Faithful(P)  == P.stored = NormAll(P.want)                    \* no setter drops or mangles a value
+Refreshed(P) == /\ ~P.dirty => P.cached = Derive(P.type, P.stored)    \* no stale derived state
+                /\ ~P.mdirty => P.mcached = P.stored.ma
+(* what a rendering depends on: the stored properties and the derived state after validation *)
+RenderState(P) == LET V == ValidateP(P) IN <<V.stored, V.cached, IF V.stored.am = 1 THEN V.mcached ELSE 0>>
+FreshRenderState(type, w) == LET n == NormAll(w) IN <<n, Derive(type, n), IF n.am = 1 THEN n.ma ELSE 0>>
+HistoryIndependent(P) == RenderState(P) = FreshRenderState(P.type, P.want)
 
 =============================================================================
